@@ -91,7 +91,11 @@ def drive(rec):
         t["slab"]["exc"] = type(e).__name__
     # the same question asked again after the crystal has been exported and queried must get the same answer
     for use in (lambda: cr.to_poscar_string(), lambda: cr.to_cif_string(), lambda: cr.to_shelx_string(), lambda: cr.density,
-                lambda: cr.atoms_in_radius(3.0), lambda: cr.asymmetric_unit.formula):
+                lambda: cr.atoms_in_radius(3.0), lambda: cr.asymmetric_unit.formula,
+                # the diffraction side of the library reads the unit-cell contents too (small cells only: the cost grows with
+                # the number of reflections)
+                lambda: cr.unique_reflections() if cr.unit_cell.volume() < 400 else None,
+                lambda: cr.structure_factors() if cr.unit_cell.volume() < 250 and len(rows) <= 48 else None):
         try:
             use()
         except Exception:
